@@ -6,8 +6,13 @@ proofs          Props.lean: codec_roundtrip (generic), compatible_transfer / agr
                 counterexamples for the entries that do not agree
 correspondence  (1) harness.cpp: real observers on real kernel objects serialised into a socketpair Channel, real
                 deserialize_transition on the other end; the Lean driver decodes the *real bytes* with the generated app
-                schema and with the generated checker schema and compares with the real checker's to_string
+                schema and with the generated checker schema and compares with the real checker's to_string; the
+                harness also prints what the application did (ids of the objects the observer was built on, all
+                different and non-zero) and the checker's description must say the same, name by name
                 (2) prog.cpp: one S4U program per simcall kind under simgrid-mc, 20 s wall limit
+                (3) prog.cpp synchro_desc: an execution through every synchronisation kind on objects with pairwise
+                different non-zero ids; the textual trace printed by simgrid-mc (checker-side description of every
+                transition) against the application-side observers of the same path (RecordTrace::replay), step by step
 """
 import json
 import os
@@ -87,6 +92,9 @@ def parse_to_string(s):
     m = re.fullmatch(r"CONDVAR_ASYNC_LOCK\(cond: (\d+), mutex: (\d+)\)", s)
     if m:
         return [m.group(1), m.group(2)]
+    m = re.fullmatch(r"CONDVAR_WAIT\(cond: (\d+), mutex: (\d+), granted: (yes|no), timeout: (yes|none)\)", s)
+    if m:
+        return [m.group(1), m.group(2), yn(m.group(3)), yn(m.group(4))]
     m = re.fullmatch(r"CONDVAR_(?:SIGNAL|BROADCAST)\(cond: (\d+)\)", s)
     if m:
         return [m.group(1)]
@@ -124,10 +132,51 @@ def parse_to_string(s):
     return None
 
 
+def described(to_string):
+    """`KIND(name: value, ...)` as printed by the checker -> (KIND, {name: int})  (mutex ids of MUTEX_* are in hex)"""
+    m = re.match(r"\s*(\w+)\((.*)\)\s*$", to_string)
+    if not m:
+        return None, {}
+    kind, d = m.group(1), {}
+    for name, val in re.findall(r"(\w+): (-?\w+)", m.group(2)):
+        if val in ("yes", "no", "none"):
+            d[name] = 1 if val == "yes" else 0
+        else:
+            try:
+                d[name] = int(val, 16 if (name == "mutex" and kind.startswith("MUTEX_")) else 10)
+            except ValueError:
+                d[name] = val
+    return kind, d
+
+
+def truth_mismatch(to_string, truth):
+    """truth: `truth k=v k=v` printed by the harness from the objects themselves -> text of the first difference"""
+    toks = truth.split()
+    if not toks or toks[0] != "truth" or len(toks) == 1:
+        return None
+    kind, d = described(to_string)
+    for t in toks[1:]:
+        k, _, v = t.partition("=")
+        if k not in d:
+            return "the checker's description %r does not show `%s` (the application used %s)" % (to_string, k, v)
+        if d[k] != int(v):
+            return "the checker describes %s with %s=%s, the application did it on %s=%s" % (kind, k, d[k], k, v)
+    return None
+
+
 def gen_cases(rng, n):
     cs = []
     for _ in range(n):
-        k = rng.below(14)
+        k = rng.below(17)
+        if k == 14:
+            cs.append("condvarwait %d %d" % (rng.below(2), rng.below(2)))
+            continue
+        if k == 15:
+            cs.append("barrierwait %d" % rng.range(1, 4))
+            continue
+        if k == 16:
+            cs.append("condvar ASYNC_LOCK")
+            continue
         if k == 0:
             cs.append("mutex %s %d" % (rng.choice(["ASYNC_LOCK", "TRYLOCK", "UNLOCK"]), rng.below(2)))
         elif k == 1:
@@ -234,14 +283,136 @@ def run_mc_programs(ctx, prog, rng):
     ctx.cov["mc_runs"] = results
 
 
+# ---- (3) checker-side description of every transition of an execution against the application-side observers
+CHK_RE = re.compile(r"Actor (\d+) in (?:.*? ==> simcall: |simcall )(.*)$")
+APP_RE = re.compile(r"Path chunk #\d+ '(\d+)/\d+' Actor [^(]*\(pid:\d+\): (.*)$")
+ID_NAMES = {"mutex_id": "mutex", "cond_id": "cond", "sem_id": "semaphore", "barrier_id": "barrier"}
+
+
+def app_described(s):
+    """application-side observer to_string: `KIND(mutex_id:2 owner:none)`, `CONDVAR_WAIT(cond_id: 3, mutex_id:2, timeout: no)`
+    -> (KIND, {name: int}) for the object ids (and the timeout of CONDVAR_WAIT)"""
+    m = re.match(r"\s*(\w+)\((.*)\)\s*$", s)
+    if not m:
+        return None, {}
+    kind, d = m.group(1), {}
+    for name, val in re.findall(r"(\w+_id):\s*(\d+)", m.group(2)):
+        d[ID_NAMES.get(name, name)] = int(val)
+    if kind == "CONDVAR_WAIT":
+        mm = re.search(r"timeout: (yes|no)", m.group(2))
+        if mm:
+            d["timeout"] = 1 if mm.group(1) == "yes" else 0
+    return kind, d
+
+
+SYNCHRO_PREFIXES = ("MUTEX_", "SEM_", "BARRIER_", "CONDVAR_")
+
+
+def compare_descriptions(chk_lines, app_lines):
+    """-> (number of synchro steps compared, first difference or None)"""
+    if len(chk_lines) != len(app_lines):
+        return 0, "the trace has %d transitions, its replay in the application %d steps" % (len(chk_lines), len(app_lines))
+    n = 0
+    for step, ((ca, cs), (aa, as_)) in enumerate(zip(chk_lines, app_lines), 1):
+        if ca != aa:
+            return n, "step %d: actor %s in the trace, actor %s in the replay" % (step, ca, aa)
+        ck, cd = described(cs)
+        ak, ad = app_described(as_)
+        synchro = (ak or "").startswith(SYNCHRO_PREFIXES) or (ck or "").startswith(SYNCHRO_PREFIXES)
+        if not synchro:
+            continue
+        n += 1
+        if ck != ak:
+            return n, "step %d (actor %s): the checker says %s, the application does %s" % (step, ca, cs, as_)
+        for name, v in ad.items():
+            if name not in cd:
+                return n, "step %d: the checker's %r does not show `%s`" % (step, cs, name)
+            if cd[name] != v:
+                return n, ("step %d (actor %s): the checker describes %s, the application does %s: %s is %s on the checker "
+                           "side and %s in the application" % (step, ca, cs, as_, name, cd[name], v))
+    return n, None
+
+
+def run_desc_programs(ctx, prog, rng, forced=None):
+    """prog.cpp synchro_desc under simgrid-mc (ends with a failing assertion: the trace of the execution is printed),
+    then the same path replayed in the application; descriptions compared step by step"""
+    mc = os.path.join(core.SGBUILD, "bin", "simgrid-mc")
+    env = dict(os.environ, **ctx.sg_env())
+    jobs = []
+    if forced:
+        jobs = [forced]
+    else:
+        for rep in range(2 if ctx.tier == "quick" else 8):
+            # numbers of dummy objects: the ids of the mutexes, condvars, semaphores, barriers used are non-zero and
+            # (mutex vs condvar: the two ids that travel in one message) different
+            dm = rng.range(1, 5)
+            dc = rng.choice([x for x in range(1, 7) if x != dm and x + 1 != dm])    # mtx=dm, cv=dc, mtx2=dm+1, cv2=dc+2
+            ds, db = rng.range(1, 5), rng.range(1, 5)
+            jobs.append(("synchro_desc", dm + 8 * dc + 64 * ds + 512 * db, rng.range(1, 3), rng.choice(["dpor", "none", "odpor"])))
+    res = {}
+    for kind, p1, p2, red in jobs:
+        cmd = [mc, "--cfg=model-check/reduction:" + red, "--log=no_loc", "--cfg=model-check/search-critical:0", prog, kind,
+               str(p1), str(p2)]
+        case = {"program": "props/C43/prog.cpp", "args": [kind, p1, p2], "reduction": red, "cmd": " ".join(cmd), "mode": "desc"}
+        ctx.cov["evaluations"] += 1
+        out = None
+        for attempt, limit in enumerate((60, 240)):
+            try:
+                p = subprocess.run(cmd, capture_output=True, text=True, timeout=limit, env=env, cwd=ctx.work)
+                out, rc = p.stdout + p.stderr, p.returncode
+                if rc == 1 and "Counter-example execution trace" in out:
+                    break
+            except subprocess.TimeoutExpired:
+                out, rc = None, "timeout"
+        if out is None or rc != 1 or "Counter-example execution trace" not in out:
+            case.update({"rc": rc, "output_tail": (out or "")[-800:]})
+            ctx.violation("simgrid-mc does not report the (forced) assertion failure at the end of an execution through all "
+                          "synchronisation kinds: rc=%s" % rc, case, key=None)
+            continue
+        chk = [(m.group(1), m.group(2).strip()) for m in (CHK_RE.search(l) for l in out.split("\n")) if m]
+        pm = re.search(r"--cfg=model-check/replay:'([^']*)'", out)
+        if not pm or not chk:
+            ctx.broken.append({"kind": "trace-format-unknown", "output_tail": out[-800:]})
+            continue
+        rcmd = [prog, "--cfg=model-check/replay:" + pm.group(1), "--log=no_loc", kind, str(p1), str(p2)]
+        try:
+            r = subprocess.run(rcmd, capture_output=True, text=True, timeout=120, env=env, cwd=ctx.work)
+            rout = r.stdout + r.stderr
+        except subprocess.TimeoutExpired:
+            rout = ""
+        app = [(m.group(1), m.group(2).strip()) for m in (APP_RE.search(l) for l in rout.split("\n")) if m]
+        if not app:
+            ctx.broken.append({"kind": "replay-format-unknown", "cmd": " ".join(rcmd), "output_tail": rout[-800:]})
+            continue
+        n, why = compare_descriptions(chk, app)
+        case.update({"path": pm.group(1), "steps": len(chk), "synchro_steps_compared": n})
+        res["%s/%s/%d/%d" % (kind, red, p1, p2)] = "%d synchro steps of %d agree" % (n, len(chk)) if not why else why
+        if why:
+            case.update({"checker_trace": ["%s %s" % x for x in chk], "application_replay": ["%s %s" % x for x in app]})
+            ctx.violation("the checker's description of a transition differs from what the application did: " + why, case, key=None)
+        else:
+            kinds_seen = {described(s_)[0] for _, s_ in chk}
+            ctx.cov["traces_validated_against_impl"] += 1
+            ctx.cov["distinct_nontrivial"] += 1
+            ctx.cov["desc_kinds_seen"] = sorted(set(ctx.cov.get("desc_kinds_seen", [])) | {k for k in kinds_seen if k and k.startswith(SYNCHRO_PREFIXES)})
+    ctx.cov["desc_runs"] = res
+
+
 def run(ctx):
-    ctx.cov["rule"] = ("(1) in-process: observer cases drawn from splitmix64(VERIF_SEED) over 14 observer classes/kinds with "
+    ctx.cov["rule"] = ("(1) in-process: observer cases drawn from splitmix64(VERIF_SEED) over 16 observer classes/kinds with "
                        "boundary parameters (capacities around 2^31, INT_MIN/INT_MAX ranges, members with/without peer, "
-                       "non-comm members); (2) one S4U program per simcall kind under simgrid-mc. non-trivial = distinct "
-                       "in-process case decoded by the real checker + MC runs that completed")
+                       "non-comm members), on objects with pairwise different non-zero ids; (2) one S4U program per simcall "
+                       "kind under simgrid-mc; (3) executions through every synchronisation kind, checker-side description "
+                       "against application-side observer step by step. non-trivial = distinct in-process case decoded by "
+                       "the real checker + MC runs that completed + description runs that agree")
     ctx.assumptions += [
-        "CommIsend/CommIrecv/Iprobe/MessIput/MessIget observers and CONDVAR_WAIT/BARRIER_WAIT are not built in-process (they are "
-        "covered by the generated table and, except iprobe, by the programs under simgrid-mc)",
+        "CommIsend/CommIrecv/Iprobe/MessIput/MessIget observers are not built in-process (they are covered by the generated "
+        "tables of types and roles and, except iprobe, by the programs under simgrid-mc)",
+        "roles: the normalisation table ROLE_SYNONYMS of gen.py (src_actor = sender, other = target, fun_call = call_location, ...) "
+        "is read off the code by hand; a literal constant packed by the application is compatible with any checker-side member",
+        "step-by-step comparison of descriptions: the application side is the observer's own to_string() (it reads the objects, "
+        "not the serialised bytes); only kinds, object ids and the CONDVAR_WAIT timeout flag are compared (owner / granted / "
+        "capacity are sampled at different instants on the two sides)",
         "iprobe is only reachable through SMPI (IprobeSimcall dereferences an smpi::Request): no S4U program for it",
         "the memory-access trace appended after the transition (MemoryAccessTrace::serialize) is outside the model"]
     ctx.ensure_simgrid(["simgrid", "simgrid-mc"])
@@ -254,7 +425,12 @@ def run(ctx):
     corpus = [l.strip() for l in open(ctx.pdir + "/corpus.txt") if l.strip() and not l.startswith("#")]
     if ctx.replay:
         case = json.load(open(ctx.replay))["case"]
-        if "program" in case:
+        if case.get("mode") == "desc":
+            corpus, n = [], 0
+            if prog:
+                run_desc_programs(ctx, prog, rng, forced=tuple(case["args"]) + (case["reduction"],))
+            return
+        elif "program" in case:
             corpus, n = [], 0
             global MC_KINDS
             MC_KINDS = [case["args"][0]]
@@ -281,6 +457,11 @@ def run(ctx):
                 obs, hexs = parts[0].split()
                 status = parts[1]
                 vals = parse_to_string(parts[2]) if len(parts) > 2 and status in ("ok", "leftover") else []
+                if len(parts) > 3 and status == "ok":
+                    why = truth_mismatch(parts[2], parts[3])
+                    ctx.cov["in_process_described_vs_done"] = ctx.cov.get("in_process_described_vs_done", 0) + 1
+                    if why and len([v for v in ctx.violations if v.get("what", "").startswith("in-process")]) < 3:
+                        ctx.violation("in-process: " + why, {"query": q, "impl": l[:400]}, key=None)
                 if vals is None:
                     ctx.broken.append({"kind": "to_string-format-unknown", "line": l[:300]})
                     vals = ["?"]
@@ -314,6 +495,8 @@ def run(ctx):
             ctx.cov["distribution"] = dist
     if prog:
         run_mc_programs(ctx, prog, rng.fork(2))
+        if not ctx.replay:
+            run_desc_programs(ctx, prog, rng.fork(3))
     # the generated table itself decides D14: report it even when no MC run could be made
     if info:
         for obs, lab, k, fs in info["app"]:
